@@ -82,7 +82,11 @@ def normalise_clause(clause):
 
 def violation_key(ir, clause, fnidx, h):
     clause = normalise_clause(clause)
-    return violation_key0(ir, clause, fnidx, h)
+    try:
+        return violation_key0(ir, clause, fnidx, h)
+    except Exception:
+        # the module is so ill-formed that the key refinement itself cannot index it: the clause alone is the key
+        return clause
 
 
 def violation_key0(ir, clause, fnidx, h):
